@@ -74,6 +74,13 @@ type caseDesc struct {
 	// once the window holds nothing but real inter-arrival times (after W+1
 	// arrivals); from then on the peer is like any other.
 	QueriedFirst bool `json:"queried_first,omitempty"`
+	// Recycled: before the sequence starts the detector has heard another peer
+	// (or, SameID, an earlier incarnation of this one) Prev times and then had
+	// that history removed (what RemoveExpired does when a node is forgotten).
+	// A removed history must leave nothing behind: the reference starts fresh.
+	Recycled bool `json:"recycled,omitempty"`
+	SameID   bool `json:"same_id,omitempty"`
+	Prev     int  `json:"prev_arrivals,omitempty"`
 }
 
 func close9(got float64, want *big.Rat) bool {
@@ -96,6 +103,24 @@ func runCase(c caseDesc, queries *int64) (string, string) {
 	t := int64(r.Intn(1000))
 	iv := c.Interval
 	var trace []int64
+	if c.Recycled {
+		id := "prev"
+		if c.SameID {
+			id = "p"
+		}
+		for k := 0; k < c.Prev; k++ {
+			t += 1 + r.Int63n(1+c.Interval)
+			fd.ReportAt(id, at(t))
+			if k%3 == 0 {
+				_ = fd.SuspicionAt(id, at(t+r.Int63n(1+c.Interval)))
+			}
+		}
+		fd.Remove(id)
+		if r.Intn(2) == 0 {
+			fd.Remove(id) // removing an unknown peer is a no-op
+		}
+		t += 1 + r.Int63n(1+c.Interval)
+	}
 	if c.QueriedFirst {
 		if got := fd.SuspicionAt("p", at(t)); math.IsNaN(got) || math.IsInf(got, 0) || got < 0 {
 			return "never-heard-level", fmt.Sprintf("%+v: level %v for a never-heard peer", c, got)
@@ -258,6 +283,11 @@ func genCase(seed int64) caseDesc {
 		c.QueriedFirst = true
 		c.Arrivals += w + 1
 	}
+	if r.Intn(4) == 0 {
+		c.Recycled = true
+		c.SameID = r.Intn(2) == 0
+		c.Prev = []int{1, w, w + 1, 2*w + 1, 1 + r.Intn(3*w+2)}[r.Intn(5)]
+	}
 	return c
 }
 
@@ -286,6 +316,9 @@ func run(sh *core.Shard, a props.Args) {
 		if c.QueriedFirst {
 			sh.Count("queried_before_heard_cases", 1)
 		}
+		if c.Recycled {
+			sh.Count("history_removed_before_cases", 1)
+		}
 		if c.Arrivals > c.W+1 {
 			sh.Nontrivial(core.Hash(c.W, c.Bootstrap, c.Regime, c.Arrivals, c.Seed))
 			sh.Count("window_wrapped_cases", 1)
@@ -300,12 +333,12 @@ func run(sh *core.Shard, a props.Args) {
 func init() {
 	props.Register(&props.Prop{
 		ID: "C12", Level: "exploration",
-		Rule: "seeded strictly increasing arrival sequences (length 1..5W+3, W in {1,2,3,7,50}, regimes steady/jitter/bursty/drift/random, intervals 1 ns .. hours) fed to the real accrualFailureDetector with explicit timestamps; every query compared with an exact big.Rat reference (silence x n / sum of the last W intervals, first sample = bootstrap); zero at arrival; steady peers stay below 20; silence beyond 20 x mean exceeds 20; histories sharing the last W intervals give identical levels; never-heard peers: contract only; a quarter of the cases query the peer before its first arrival (a node learned from a third party) and are compared with the reference once the window holds only real inter-arrival times. Integration leg: the real detector behind the real clusterState.UpdateLiveness and packet listener on a virtual clock (2-3 peers, heartbeat and silence phases, delta datagrams as arrivals, a tick per gossip interval): at every tick a heard peer is flagged unreachable iff the reference level exceeds the threshold, so a silent peer stays flagged until it is heard again. Non-trivial = the sequence is longer than the window (eviction happened); distinct = hash of the case parameters.",
+		Rule: "seeded strictly increasing arrival sequences (length 1..5W+3, W in {1,2,3,7,50}, regimes steady/jitter/bursty/drift/random, intervals 1 ns .. hours) fed to the real accrualFailureDetector with explicit timestamps; in a quarter of the cases the detector has first heard another peer, or an earlier incarnation of the same id, 1..3W+2 times and had that history removed (Remove, as RemoveExpired does), after which the reference starts fresh; every query compared with an exact big.Rat reference (silence x n / sum of the last W intervals, first sample = bootstrap); zero at arrival; steady peers stay below 20; silence beyond 20 x mean exceeds 20; histories sharing the last W intervals give identical levels; never-heard peers: contract only; a quarter of the cases query the peer before its first arrival (a node learned from a third party) and are compared with the reference once the window holds only real inter-arrival times. Integration leg: the real detector behind the real clusterState.UpdateLiveness and packet listener on a virtual clock (2-3 peers, heartbeat and silence phases, delta datagrams as arrivals, a tick per gossip interval): at every tick a heard peer is flagged unreachable iff the reference level exceeds the threshold, so a silent peer stays flagged until it is heard again. Non-trivial = the sequence is longer than the window (eviction happened); distinct = hash of the case parameters.",
 		Assumptions: []string{
 			"steady-peer claim asserted only when the bootstrap interval is within 8x of the peer's interval (piko configures 2x the gossip interval)",
 			"timestamps supplied through ReportWithTimestamp/SuspicionLevelAt; Report()/SuspicionLevel() only add time.Now()",
 		},
-		RequireCounters: []string{"queries", "window_wrapped_cases", "liveness_ticks", "liveness_ticks_with_flagged_peer", "queried_before_heard_cases"},
+		RequireCounters: []string{"queries", "window_wrapped_cases", "liveness_ticks", "liveness_ticks_with_flagged_peer", "queried_before_heard_cases", "history_removed_before_cases"},
 		Timeout: func(t string) time.Duration {
 			if t == "thorough" {
 				return 60 * time.Minute
